@@ -133,10 +133,20 @@ theorem forwarded_wire_decodes (env : Env) (m : Msg) (q0 : Question) (k : Nat) (
     REFUSED; one query to exactly the selected upstream, decodable, with the right question; SERVFAIL or relay)
     accepts the model on every path — the C10 face of `C03.model_meets_spec`. -/
 theorem routing_meets_spec (env : Env) (m : Msg)
-    (hq : ∀ q ∈ m.questions, questionWF q = true) (hrej : ∀ ru ∈ env.rules, ru.reject < 16)
-    (hups : ∀ (u : Nat) (resp : Msg), env.ups[u]? = some (UpOutcome.reply resp) → countOpt resp.additionals ≤ 2) :
+    (hq : ∀ q ∈ m.questions, questionWF q = true) (hrej : ∀ ru ∈ env.rules, ru.reject < 16) :
     RouterIO.spec env m ⟨(handle env m).resp, (handle env m).forwards⟩ = "ok" :=
-  spec_model env m hq hrej hups
+  spec_model env m hq hrej
+
+/-- … and for a router that started: `loadRule` refuses a `reject` outside 0..15 (`LoadCfg.acceptsFull`), so for
+    the rules of an accepted configuration the reject-code hypothesis holds by itself. -/
+theorem routing_meets_spec_started (c : LoadCfg.Cfg) (env : Env) (m : Msg) (hc : LoadCfg.acceptsFull c = true)
+    (hrules : env.rules.map (·.reject) = c.rejects) (hq : ∀ q ∈ m.questions, questionWF q = true) :
+    RouterIO.spec env m ⟨(handle env m).resp, (handle env m).forwards⟩ = "ok" := by
+  refine spec_model env m hq ?_
+  intro ru hru
+  simp only [LoadCfg.acceptsFull, Bool.and_eq_true, List.all_eq_true, decide_eq_true_eq] at hc
+  have := hc.1.2 ru.reject (by rw [← hrules]; exact List.mem_map_of_mem hru)
+  omega
 
 /-- non-vacuity: a two-rule list where the first (reject) rule wins over a later forward rule -/
 example :
@@ -225,10 +235,13 @@ theorem load_ok_iff (c : LoadCfg.Cfg) : LoadCfg.accepts c = LoadCfg.specAccepts 
         simp only [hu' f, hd' d]
 
 /-- non-vacuity: a configuration that is accepted and three that are not -/
-example : LoadCfg.accepts ⟨[("u0", true)], ["ds"], [("ds", "u0"), ("", "")], false⟩ = true := by decide
-example : LoadCfg.accepts ⟨[("u0", true)], ["ds"], [("ds", "u1")], false⟩ = false := by decide
-example : LoadCfg.accepts ⟨[("u0", true), ("u0", true)], [], [], false⟩ = false := by decide
-example : LoadCfg.accepts ⟨[("u0", true)], [], [], true⟩ = false := by decide
+example : LoadCfg.accepts { upstreams := [("u0", true)], domainSets := ["ds"], rules := [("ds", "u0"), ("", "")], unknownKey := false } = true := by decide
+example : LoadCfg.accepts { upstreams := [("u0", true)], domainSets := ["ds"], rules := [("ds", "u1")], unknownKey := false } = false := by decide
+example : LoadCfg.accepts { upstreams := [("u0", true), ("u0", true)], domainSets := [], rules := [], unknownKey := false } = false := by decide
+example : LoadCfg.accepts { upstreams := [("u0", true)], domainSets := [], rules := [], unknownKey := true } = false := by decide
+/-- … and the reject range check: 15 passes, 16 does not -/
+example : LoadCfg.acceptsFull { upstreams := [("u0", true)], domainSets := [], rules := [("", "u0"), ("", "")], unknownKey := false, rejects := [0, 15] } = true := by decide
+example : LoadCfg.acceptsFull { upstreams := [("u0", true)], domainSets := [], rules := [("", "")], unknownKey := false, rejects := [16] } = false := by decide
 
 /-- tie: the rule scan (first match wins: one `break`), `reverse`, reject-before-forward, REFUSED for
     no rule / no action, strict configuration decoding and the tag checks at start-up. -/
